@@ -290,25 +290,28 @@ Twin == TwinOf(chain)
 RECURSIVE TwinStoresAll(_)
 TwinStoresAll(ch) ==
   Len(ch) = 0 \/ (TwinStoresAll(SubSeq(ch, 1, Len(ch) - 1)) /\ StoreF(TwinOf(SubSeq(ch, 1, Len(ch) - 1)), ch[Len(ch)]).ok)
-TwinSane == TwinStoresAll(chain) /\ \A blk \in BlockMenu : StoreF(Twin, blk).ok
+TwinSane == TwinStoresAll(chain) /\ LET tw == Twin IN \A blk \in BlockMenu : StoreF(tw, blk).ok
 
 DiskAsTwin == pers = Twin.pers
 
 RunningAsTwin ==
-  LET a == Touch(Node).run
-      b == Touch(Twin).run IN a = b /\ Touch(Node).pers = Twin.pers
+  LET tw == Twin
+      a == Touch(Node)
+      b == Touch(tw) IN a.run = b.run /\ a.pers = tw.pers
 
 AllRanges == {<<0, Height>>} \cup {<<from, to>> : from \in {0} \cup (Base..Height), to \in (Base - 1)..(Height + 1)}
 AnswersAsTwin ==
+  LET tw == Touch(Twin)          \* (a query that touches nothing returns nothing on either node)
+      nd == Touch(Node) IN
   \A f \in FilterMenu : \A rg \in AllRanges :
-     LET a == QueryF(Node, f, rg[1], rg[2])
-         b == QueryF(Twin, f, rg[1], rg[2]) IN a.ok = b.ok /\ a.ev = b.ev
+     LET a == QueryF(nd, f, rg[1], rg[2])
+         b == QueryF(tw, f, rg[1], rg[2]) IN a.ok = b.ok /\ a.ev = b.ev
 
 NextAsTwin ==
   /\ \A blk \in BlockMenu : StoreF(Node, blk).ok
   /\ Len(chain) > 0 => RevertF(Node).ok
 
-CacheFresh == \A w \in DOMAIN cache : w \in DOMAIN Twin.pers /\ cache[w] = Twin.pers[w]
+CacheFresh == cache = EmptyF \/ LET tw == Twin IN \A w \in DOMAIN cache : w \in DOMAIN tw.pers /\ cache[w] = tw.pers[w]
 
 (* when a window is persisted it is complete, and the snapshot - when one exists - is the current filter *)
 PersistedComplete == \A w \in DOMAIN pers : (w + 1) * W - 1 <= Height
